@@ -383,14 +383,20 @@ static int r_ilu0(const Witness &w) {
 // ---------------------------------------------------------------------------------------------
 // 6. chebyshev::solve (the unit is inductive, there is no witness): the real smoother on a fixed SPD matrix for degree 0..5, with and
 // without diagonal scaling, against an independent evaluation of the documented recurrence
+static int r_chebyshev_scaled(double factor);
 static int r_chebyshev(const Witness &) {
+    // several scalings of the matrix: whether fl(fl(1/d) * d) == 1 for the ellipse centre d depends on the value of d
+    for (int k = 0; k < 48; ++k) if (int rc = r_chebyshev_scaled(k == 0 ? 1.0 : 0.3 + 0.37 * k)) return rc;
+    return 0;
+}
+static int r_chebyshev_scaled(double factor) {
     const ptrdiff_t n = 4;
     Crs A; A.set_size(n, n, true);
     std::vector<ptrdiff_t> col; std::vector<double> val;
     for (ptrdiff_t i = 0; i < n; ++i) {
-        if (i > 0) { col.push_back(i - 1); val.push_back(-1.0); }
-        col.push_back(i); val.push_back(3.0 + i);
-        if (i + 1 < n) { col.push_back(i + 1); val.push_back(-1.0); }
+        if (i > 0) { col.push_back(i - 1); val.push_back(-1.0 * factor); }
+        col.push_back(i); val.push_back((3.0 + i) * factor);
+        if (i + 1 < n) { col.push_back(i + 1); val.push_back(-1.0 * factor); }
         A.ptr[i + 1] = (ptrdiff_t)col.size();
     }
     A.set_nonzeros(col.size());
@@ -417,7 +423,7 @@ static int r_chebyshev(const Witness &) {
         for (ptrdiff_t i = 0; i < n; ++i)
             if (!(std::fabs(x[i] - xe[i]) <= 1e-12 * (1 + std::fabs(xe[i])))) FAIL("chebyshev::solve degree " << degree << (scale ? " scaled" : "") << ": x[" << i << "] = " << x[i] << " but the Chebyshev recurrence gives " << xe[i]);
     }
-    std::cout << "chebyshev: degrees 0..5, scaled and unscaled, agree with the recurrence" << std::endl;
+    std::cout << "chebyshev (matrix scaled by " << factor << "): degrees 0..5, scaled and unscaled, agree with the recurrence" << std::endl;
     return 0;
 }
 
